@@ -42,7 +42,10 @@ type MgrOpts struct {
 	Metadata      map[string]string `json:"metadata,omitempty"`
 	PerNodeMD     bool              `json:"per_node_md,omitempty"`
 	NoConnect     bool              `json:"no_connect,omitempty"`
-	ListIDs       bool              `json:"list_ids,omitempty"` // ids generated from addresses (WithNodeList) instead of a map
+	// TightDial keeps the (short) dial timeout also for a non-blocking dial, which never waits
+	// for it (see NewClient); for cases in which the value itself matters.
+	TightDial bool `json:"tight_dial,omitempty"`
+	ListIDs   bool `json:"list_ids,omitempty"` // ids generated from addresses (WithNodeList) instead of a map
 	// MaxSendBytes > 0 limits the size of a message the client may send (grpc.MaxCallSendMsgSize):
 	// larger requests fail in SendMsg although the stream stays healthy.
 	MaxSendBytes int `json:"max_send_bytes,omitempty"`
@@ -214,7 +217,7 @@ func newClientOnce(cl *Cluster, o MgrOpts) (*Client, error) {
 	if dt == 0 {
 		dt = 50
 	}
-	if !o.WithBlock {
+	if !o.WithBlock && !o.TightDial {
 		// a non-blocking dial never waits for its timeout; a short one only makes the dial fail
 		// when the machine is so busy that grpc.DialContext itself takes that long
 		dt = 10000
